@@ -7,7 +7,7 @@ ID = "C02"
 NEEDS_CLI = True
 THOROUGH_ROUNDS = 1
 RULE = ("op mn.seed <phrase> <passphrase>: all five phrase lengths, layout variants of the phrase (incl. exactly one separator of every white-space kind), passphrases: empty, ASCII, "
-        "precomposed/decomposed pairs, full-width/ASCII pairs, ligatures, Hangul, combining marks in non-canonical order, astral plane; "
+        "precomposed/decomposed pairs, full-width/ASCII pairs, ligatures, Hangul, combining marks in non-canonical order, runs of 1..100 combining marks, astral plane; "
         "every code point with an NFKD mapping or non-zero combining class alone between ASCII letters (all below U+0250, stratified sample above; thorough: all); code points restricted to those assigned in Unicode 14.0 (python unicodedata) — the crate ships Unicode 16 tables; "
         "NFKD-equivalent pairs must give equal seeds (extra check); the repo's four seed vectors; passphrases with leading/trailing (Unicode) white space; a sample of the pairs re-run through `export --password` (flag and environment) so that the wallet the commands build is covered too; "
         "non-trivial = distinct (words, passphrase); judge = BIP-39 PBKDF2 from the standard with the NFKD table of python's unicodedata")
@@ -107,6 +107,16 @@ def gen(rng, tier):
         cases.append(Case("mn.seed %s %s" % (hx(" ".join(ws12)), hx("x" + chr(cp))), tags=("single-char", "hangul")))
     for pw in ["5µm²", "a b", "½ ¾ ¼", "ª º ¹ ³", "¨ ¯ ´ ¸", "plain ascii", "ÿ", "¿¡"]:
         cases.append(Case("mn.seed %s %s" % (hx(" ".join(ws12)), hx(pw)), tags=("latin1",)))
+    # long runs of combining marks (NFKD has no length limit: the "stream-safe" variant, which inserts U+034F after 30
+    # marks, is a different text): 29..33, 64, 100 marks, one mark repeated / many different marks in non-canonical
+    # order, after a plain and after a precomposed letter
+    MARKS = [chr(c) for c in range(0x300, 0x370) if unicodedata.combining(chr(c))]
+    for k in (1, 2, 29, 30, 31, 32, 33, 64, 100):
+        for base in ("a", "\u00e9", "q"):
+            for style in ("same", "mixed"):
+                run = "\u0323" * k if style == "same" else "".join(rng.choice(MARKS) for _ in range(k))
+                pw = "Z" + base + run + "!"
+                cases.append(Case("mn.seed %s %s" % (hx(" ".join(ws12)), hx(pw)), tags=("mark-run", "marks:%d" % (k + (1 if base == "\u00e9" else 0)))))
     # passphrases that begin / end with (Unicode) white space, or are nothing else: part of the salt like any other character
     for pw in ["TREZOR ", " TREZOR", " ", "  ", "\t", "pass\n", "\r\npass", "pass\u3000", "\u00a0pass", "\u2003x\u2003", "x\u200a", "\u0085y", "\u2028z", "\x0bq\x0c"]:
         cases.append(Case("mn.seed %s %s" % (hx(" ".join(ws12)), hx(pw)), tags=("edge-whitespace",)))
